@@ -49,6 +49,15 @@ def all_entries():
     L = []
     for e in scope.forecasters():
         L.append({"name": "fc_" + e["name"], "kind": "forecaster", "factory": e["factory"], "req": e["mode"] == "req"})
+    # the online ensemble with a weighting algorithm (protocol only: its weights depend on the update history)
+    def online():
+        from sktime.forecasting.online_learning._online_ensemble import OnlineEnsembleForecaster
+        from sktime.forecasting.online_learning._prediction_weighted_ensembler import NormalHedgeEnsemble
+        from sktime.forecasting.naive import NaiveForecaster
+        from sklearn.metrics import mean_squared_error
+        return OnlineEnsembleForecaster([("a", NaiveForecaster("last")), ("b", NaiveForecaster("mean"))],
+                                        ensemble_algorithm=NormalHedgeEnsemble(n_estimators=2, loss_func=mean_squared_error))
+    L.append({"name": "fc_online_ensemble", "kind": "forecaster", "factory": online, "req": False})
     for e in E.series_transformers() + E.panel_transformers() + E.classifiers() + E.regressors():
         if e["name"] != "optpass_reconfigured":     # deliberately handed over in a fitted, re-parameterised state
             L.append(dict(e))
@@ -211,6 +220,20 @@ def passed_exactly(entry):
     est = entry["factory"]()
     bad = []
     shallow = est.get_params(deep=False)
+    # every argument given to the constructor is what get_params returns (also where the default is None)
+    for k, v in sorted(shallow.items()):
+        a = alt_of(k, v) if k not in SKIP else None
+        if a is None and v is None and k in ("window_length", "sp", "n_intervals", "lower", "upper", "pad_length"):
+            a = 3
+        if a is None:
+            continue
+        try:
+            other = type(est)(**dict(shallow, **{k: a}))
+        except Exception:
+            continue
+        got = other.get_params(deep=False)[k]
+        if not same(got, a):
+            bad.append("%s=%r comes back as %r" % (k, a, got))
     for k, v in sorted(shallow.items()):
         if isinstance(v, bool) or not isinstance(v, (int, np.integer)):
             continue
@@ -239,6 +262,21 @@ def two_components(entry):
     deep = est.get_params(deep=True)
     now = dict((t[0], t[1]) for t in est.get_params(deep=False)[lname])
     return deep.get(names[0]) is a and deep.get(names[-1]) is b and now.get(names[0]) is a and now.get(names[-1]) is b
+
+
+def replace_and_nested(entry):
+    """One set_params call that replaces a component by name AND sets a parameter of that (new) component."""
+    from sktime.forecasting.naive import NaiveForecaster
+    est = entry["factory"]()
+    shallow = est.get_params(deep=False)
+    lname = next((n for n in ("forecasters", "steps") if n in shallow and isinstance(shallow[n], list)), None)
+    if lname is None:
+        return None
+    name = shallow[lname][-1][0]
+    new = NaiveForecaster(strategy="last")
+    est.set_params(**{name: new, name + "__strategy": "drift"})
+    deep = est.get_params(deep=True)
+    return deep.get(name) is new and new.strategy == "drift" and deep.get(name + "__strategy") == "drift"
 
 
 def run_plan(entry, plan, seed, tid):
@@ -399,6 +437,17 @@ def run(ctx):
                 two = two_components(entry)
             except Exception as e:
                 two = "crash %s" % type(e).__name__
+            try:
+                rn = replace_and_nested(entry)
+            except Exception as e:
+                rn = "crash %s" % type(e).__name__
+            if rn is not None:
+                tid += 1
+                ctx.evaluations += 1
+                meta[tid] = {"estimator": entry["name"], "plan": [["replace_component_and_set_its_parameter_in_one_call", ""]]}
+                trace.append({"tid": tid, "i": 1, "op": "set_alt", "name": "c__p",
+                              "obs": {"rej": "" if rn is True else "other", "params": {"c__p": "alt" if rn is True else "other"},
+                                      "fitted": False, "self": True}})
             if two is not None:
                 tid += 1
                 ctx.evaluations += 1
